@@ -251,7 +251,9 @@ impl PurlShape for PackageType {
         match self {
             PackageType::Cargo | PackageType::Gem | PackageType::Npm | PackageType::Golang => {},
             PackageType::Maven => {
-                if parts.namespace.is_empty() {
+                // A namespace without any non-empty segment (e.g. "/") is not a namespace: it
+                // would be printed as extra slashes and the result would not parse.
+                if parts.namespace.split('/').all(|segment| segment.is_empty()) {
                     return Err(PackageError::MissingRequiredField(PurlField::Namespace));
                 }
             },
